@@ -36,6 +36,7 @@ type c11Case struct {
 	Cap         int         `json:"cap"`
 	Clients     []c11Client `json:"clients"`
 	DrainS      int         `json:"drain_s"`     // shutdown timeout in seconds: 30 is the shipped default, 0 means "no limit"
+	UptimeS     int         `json:"uptime_s"`    // how long the proxy has been serving before the first client shows up
 	ShutdownMs  int         `json:"shutdown_ms"` // earliest time of the shutdown request; the scheduler may fire it at any later step
 	WOne, WRand int
 }
@@ -68,6 +69,7 @@ func genC11(t *tape.Tape, tier string) any {
 	}
 	c.ShutdownMs = []int{0, 10, 500, 2000}[t.Pick(3, 2, 2, 1)]
 	c.DrainS = []int{30, 0, 90}[t.Pick(5, 2, 1)]
+	c.UptimeS = []int{0, 45, 4000}[t.Pick(4, 1, 1)]
 	c.WOne = t.Pick(6, 2, 1)
 	c.WRand = t.Pick(2, 4, 2) * 2
 	return c
@@ -190,6 +192,7 @@ func runC11(env *core.Env, ci any) {
 		env.Fail("harness-start", "", "start: %v", err)
 		return
 	}
+	time.Sleep(time.Duration(c.UptimeS) * time.Second) // a proxy is rarely asked to stop in its first second
 	var shutdownAt time.Duration = -1
 	shutdownSeq := 0
 	shutdownCh := make(chan struct{})
@@ -551,7 +554,7 @@ func init() {
 		Shape: func(ci any) string {
 			c := ci.(*c11Case)
 			var sb strings.Builder
-			fmt.Fprintf(&sb, "%s/cap%d/sd%d/drain%d", c.Listener, c.Cap, c.ShutdownMs, c.DrainS)
+			fmt.Fprintf(&sb, "%s/cap%d/up%d/sd%d/drain%d", c.Listener, c.Cap, c.UptimeS, c.ShutdownMs, c.DrainS)
 			for _, cl := range c.Clients {
 				fmt.Fprintf(&sb, "/%s-%d-%d", cl.Kind, cl.DelayMs/1000, cl.StartMs)
 			}
